@@ -108,7 +108,17 @@ func (f *fixture) call(h p2p.RPCHandler, procedure string, data []byte) (w *capW
 	f.vn.TakeClosed()
 	f.vn.AddConn(requesterPeer, requesterAddr)
 	w = &capWriter{}
-	h(w, &p2p.Request{ID: "c19", Procedure: procedure, Data: data, Timestamp: 1, PeerID: requesterPeer})
+	done := make(chan struct{})
+	go func() {
+		defer close(done)
+		h(w, &p2p.Request{ID: "c19", Procedure: procedure, Data: data, Timestamp: 1, PeerID: requesterPeer})
+	}()
+	select {
+	case <-done:
+	case <-time.After(20 * time.Second):
+		// reported by corr.safeRun with this case as the failing input
+		panic(fmt.Sprintf("c19-handler-hung: %s did not answer a %d-byte request within 20 s (its goroutines stay blocked)", procedure, len(data)))
+	}
 	for _, p := range f.vn.TakeClosed() {
 		if p == requesterPeer {
 			banned = true
